@@ -63,6 +63,15 @@ let () =
     if wipes || int_of_string i.(2) = 0 then
       spec "c19_regret_is_weighted_sum" (close ~rel:1e-3 ~abs:(1e-4 *. scale rs) closed_r fr)
         (Printf.sprintf "stored %g, weighted sum %g" fr closed_r);
+    (* the average strategy the library reports (Profile::weight) is the accumulator over the sum of the accumulators *)
+    if Array.length o > 6 then begin
+      let accs = Stdlib.List.map float_of_f32bits (fl o.(5)) and wts = Stdlib.List.map float_of_f32bits (fl o.(6)) in
+      let tot = Stdlib.List.fold_left ( +. ) 0.0 accs in
+      if tot > 0.0 && Float.is_finite tot && Stdlib.List.length accs = Stdlib.List.length wts then
+        Stdlib.List.iteri (fun k (a, w) ->
+          spec "c19_average_strategy_is_normalised_accumulator" (Float.abs (w -. a /. tot) <= 1e-5)
+            (Printf.sprintf "action %d: accumulated %g of %g in all, reported weight %g" k a tot w)) (Stdlib.List.combine accs wts)
+    end;
     (* traversers alternate, starting with player (start mod 2) = 0 at epoch 0 *)
     String.iteri (fun k ch ->
       spec "c19_walker_alternates" (ch = (if (start + k) mod 2 = 0 then '0' else '1')) (Printf.sprintf "epoch %d walker %c" (start + k) ch)) walkers;
